@@ -6,3 +6,5 @@ for id in "$@"; do
   echo "--- $id"; ( cd /verif && timeout 900 ./check $id quick 2>&1 | tail -4 | cut -c1-400 )
 done
 git -C /repo checkout -- . ; git -C /repo status --short | head -3
+# rebuild the harness against the restored tree so that no stale (mutated) binary is left behind
+( cd /verif/harness && GOFLAGS=-mod=mod GOPROXY=off GOSUMDB=off GOTOOLCHAIN=local go build -o bin/trace ./cmd/trace )
